@@ -565,6 +565,16 @@ func checkFrameHelpers(p *load.Program, r *kit.Report, rule string) {
 			if g, ok := in.(*ssa.Go); ok {
 				stops = append(stops, g)
 			}
+			// the handler handed to a function of this package that runs it
+			if c, ok := in.(*ssa.Call); ok {
+				if callee := kit.StaticCallee(c); callee != nil && callee.Pkg != nil && callee.Pkg.Pkg.Path() == R {
+					for _, a := range c.Call.Args {
+						if strings.HasSuffix(a.Type().String(), "bitcoin_reader.MessageHandlerFunction") {
+							stops = append(stops, c)
+						}
+					}
+				}
+			}
 		})
 		bad := ""
 		if rh == nil {
